@@ -232,6 +232,12 @@ class Func(object):
                     for s in blk.succ:
                         if s is not None and s >= 0:
                             self.blocks[s].preds.append(blk.b)
+                    # In the last block of an `a && b` / `a || b` chain clang reports the whole chain as the condition;
+                    # given that the block was reached, its value is that of the right-most leaf.
+                    c = self.nodes.get(blk.cond) if blk.cond is not None else None
+                    while c is not None and c['k'] == 'BinaryOperator' and c.get('op') in ('&&', '||') and len(c['ch']) == 2:
+                        c = c['ch'][1]
+                        blk.cond = c['i']
 
     def _adopt(self, d, parent):
         # iterative conversion to Node
